@@ -101,6 +101,21 @@ CHECKS['C13'] = dict(
          "substituted texts; TLC compares rendered text byte for byte and decides acceptance of each text with its own parser.",
     note="TonAddr transcription; a substitution means a different 6-bit symbol in the variant's alphabet",
     tech="TLA+ address/CRC spec: TLC lemma over all substitution patterns + TLC validation of recorded render/parse results", ref="8/C13")
+CHECKS['C19'] = dict(
+    text="The ordering algorithm is a TLA+ machine with a step counter; TLC checks on every multigraph DAG <= 4 (5) cells and on double chains "
+         "that it terminates (liveness under weak fairness), takes exactly n + e steps and emits a topological order. The library's work is "
+         "measured in interpreter line events inside pytoniq_core for adversarial DAG families (double/quad chains to depth 60, ladders, "
+         "trees, random shared DAGs, depth-1023 chain) and adversarial byte strings (BoC count fields, TL vector counts up to 2^32-1, TL "
+         "bytes lengths, dictionary labels); TLC checks work <= 50*(n+e+len)^2+2000 per record. A tracer aborts at the budget.",
+    note="work = Python line events (not wall time); a 60 s per-call watchdog covers loops inside C code; bound constants are a judgement (quadratic allowance)",
+    tech="TLA+ memoised-DFS machine model-checked by TLC (safety + termination) + TLC validation of recorded work counts against the polynomial bound", ref="8/C19")
+CHECKS['C20'] = dict(
+    text="Channel key selection, key ids, packet header and AES key/iv layout are TLA+ definitions with SHA-256 evaluated by TLC; the two-peer channel "
+         "machine with symbolic DH/AES is model-checked (A.enc = B.dec, delivery, expected key id) for every id ordering incl. equal ids. Real "
+         "channels for seeded key pairs (both orderings, forced equal ids), packets both ways, the signing helper with altered message/key/"
+         "signature, and generated mnemonics are recorded and validated by TLC.",
+    note="X25519/Ed25519/AES/PBKDF2 are library primitives taken as ground truth (shared secret recomputed with nacl, reference ciphertext with Cryptodome)",
+    tech="TLA+ two-peer channel machine with symbolic crypto model-checked by TLC + TLC validation of recorded keys/packets (SHA-256 in TLA+)", ref="8/C20")
 NOT_APPLICABLE = []
 def main():
     checks = []
